@@ -58,8 +58,13 @@ def unit_apply_options(tier=None, seed=None, prop="C06"):
             I.contracts[f"nanite.preproc:{fn.qualname}"] = step_contract
         apret = sx.Obj(sx.ClassVal("Indentation", [sx.OBJECT], {}))
         apret.cls.ns["reset_data"] = sx.Builtin("reset_data", lambda I, self: log.append("reset"))
-        ids = ["compute_tip_position", "correct_tip_offset"]
-        st.update(options=options, inner=inner, got=got, ret_details=ret_details, log=log, ids=ids)
+        # which pipeline: the two-step one, a single step or the EMPTY one (= "back to the raw data")
+        shape = I.choose([z3.Bool("pipeline_two_steps"), z3.Bool("pipeline_one_step"), z3.Bool("pipeline_empty")])
+        if shape > 2:
+            raise sx.PathAbort()
+        ids = [["compute_tip_position", "correct_tip_offset"], ["compute_tip_position"], []][shape]
+        st.update(options=options, inner=inner, got=got, ret_details=ret_details, log=log, ids=ids, shape=shape,
+                  ids0=None if ids is None else list(ids))
         return mod.env.vars["apply"], [], dict(apret=apret, identifiers=ids, options=options,
                                                ret_details=ret_details)
 
@@ -67,16 +72,20 @@ def unit_apply_options(tier=None, seed=None, prop="C06"):
         I = S.I
         S.ensure("accepts_valid_pipeline", out.kind == "return")
         got = st["got"].get("correct_tip_offset")
-        S.ensure("step_called_with_its_options", got is not None and "method" in got
-                 and got["method"] is st["inner"].d["method"][1])
+        if st["shape"] == 0:
+            S.ensure("step_called_with_its_options", got is not None and "method" in got
+                     and got["method"] is st["inner"].d["method"][1])
         S.ensure("caller_options_not_modified", list(st["inner"].d) == ["method"] and list(st["options"].d) == ["correct_tip_offset"]
                  and not any(m is st["inner"] or m is st["options"] for m in I.mutations))
-        S.ensure("identifiers_not_modified", st["ids"] == ["compute_tip_position", "correct_tip_offset"]
-                 and not any(m is st["ids"] for m in I.mutations))
-        # the raw data are restored before the first step and never again between the steps
+        S.ensure("identifiers_not_modified", st["ids"] == st["ids0"]
+                 and not any(m is st["ids"] for m in I.mutations if st["ids"] is not None))
+        # the raw data are restored before the first step and never again between the steps -- also for the empty
+        # pipeline, which means "the recorded raw data"
         lg = st["log"]
-        S.ensure("restarts_from_raw_data", bool(lg) and lg[0] == "reset" and "step" in lg
-                 and "reset" not in lg[lg.index("step"):])
+        nsteps = 0 if st["ids0"] is None else len(st["ids0"])
+        S.ensure("restarts_from_raw_data", bool(lg) and lg[0] == "reset" and lg.count("step") == nsteps
+                 and "reset" not in lg[1:], case={"pipeline": st["ids0"], "log": lg},
+                 witness=["two_steps", "one_step", "empty", "none"][st["shape"]])
         # (what is returned for ret_details is not part of this property)
 
     S.run(setup, post)
